@@ -13,7 +13,8 @@ taken through, on both FFIs,
 
 Audit extension: (1) the contexts also declare aggregates and enums that have
 no tag of their own (named only through a typedef), opaque structs, a pointer
-typedef to an opaque struct, and FILE; (2) the declarator text is passed with
+typedef to an opaque struct, pointer typedefs to a struct / enum that has no
+name at all ('typedef struct {..} *p;': class 'anonymous-base'), and FILE; (2) the declarator text is passed with
 every kind of surrounding white space (blank, tab, newline, several) and
 either positionally or as replace_with=; (3) the same request is also made
 through the other entry point, getctype(<type string>, x); (4) the plain name
@@ -30,8 +31,8 @@ RULE = ("case = (declaration context, ctype T denoted by a C07-grammar type stri
         "suffixes with random blanks, args from primitives and the context's typedef/struct/"
         "union/enum names; plus one 'v_i' declaration per (T, FFI) for gcc; distinct = (context, "
         "T name, FFI, x); non-trivial = T is not a bare primitive/aggregate or x is nested.  "
-        "Every context also has typedef-only-named struct/union/enum, opaque struct, pointer-to-opaque "
-        "typedefs and FILE; x is wrapped in random white space (blank/tab/newline/several) and passed "
+        "Every context also has typedef-only-named struct/union/enum, opaque struct, pointer-to-opaque, "
+        "pointer-to-nameless-struct/enum typedefs and FILE; x is wrapped in random white space (blank/tab/newline/several) and passed "
         "positionally or by keyword; a third of the requests is repeated as getctype(type string, x); "
         "every other (T, FFI) also gives gcc one declaration made from a named declarator")
 ASSUMPTIONS = ["x is read as an abstract declarator applied to T as if T were a typedef name (C 6.7.7); "
@@ -50,6 +51,9 @@ ASSUMPTIONS = ["x is read as an abstract declarator applied to T as if T were a 
                "(acceptance of the declaration is still checked; sizeof only for complete types)",
                "getctype(s, x) with a type string s is the same request as getctype(typeof(s), x): its "
                "result must re-parse to the same expected ctype (the text itself may differ)",
+               "a T whose source string uses a pointer typedef to a nameless struct / enum is judged like "
+               "any other T (the property quantifies over every ctype); all its mechanisms carry the one "
+               "class 'anonymous-base', decided from the source string and not from the name cffi gives",
                "named declarators for gcc: getctype(T, '*w') etc. is read like (b) with the identifier "
                "inside; only shapes that are C types for that T are used ('w[2]' and '(*w)[3]' only for "
                "complete T, '(*w)(void)' not for array T); the expected size is sizeof(void *) or "
@@ -387,14 +391,18 @@ def child_case(st, case):
             for j in range(NSUF):
                 xs.append(fixed_decl(r2, pool, r2.choice(FIXED)) if r2.random() < 0.4
                           else gen_decl(r2, pool))
+            anon_base = any(t in xnames[-2:] for t in toks)
             for fi, ((label, f, interp), T) in enumerate(zip(ffis, ts)):
                 kd = tkind(T)
                 rep.stat('T_' + kd)
-                if '$' in T.cname:
-                    # a type that has no C name at all (anonymous aggregate / enum reached through
-                    # a pointer typedef): one classifier for everything about it
-                    kd = 'dollar-name'
-                    rep.stat('T_named_with_dollar_number_' + label)
+                if anon_base:
+                    # built on a type that has no C name at all (anonymous aggregate / enum reached
+                    # through a pointer typedef; decided from the source string, not from what
+                    # cffi calls it): one classifier for everything about it
+                    kd = 'anonymous-base'
+                    rep.stat('T_on_anonymous_base_' + label)
+                    if '$' in T.cname:
+                        rep.stat('T_on_anonymous_base_named_with_dollar_' + label)
                 oc = origin_class(B, T)
                 if oc:
                     rep.stat('T_base_' + oc)
@@ -411,7 +419,7 @@ def child_case(st, case):
                         rep.stat('x_passed_by_keyword')
                     det = [seed, ti]
                     key = (seed, T.cname, label, x)
-                    cls = '%s:%s' % (label, kd) if kd == 'dollar-name' else \
+                    cls = '%s:%s' % (label, kd) if kd == 'anonymous-base' else \
                         '%s:%s:%s' % (label, kd, xclass(x))
                     where = '%s FFI, T = %r (from %r), x = %r [shape %s]' % (
                         label, T, s, xt, shape_of(x))
@@ -524,7 +532,7 @@ def child_case(st, case):
                       and not (n[2] and T.kind == 'array')]
                 fmt, _, _, np = r2.choice(ok)
                 var = 'w_%d_%s' % (ti, label[0])
-                kd2 = kd if kd == 'dollar-name' else '%s:%s' % (kd, (fmt % 'w').replace(' ', ''))
+                kd2 = kd if kd == 'anonymous-base' else '%s:%s' % (kd, (fmt % 'w').replace(' ', ''))
                 try:
                     line = f.getctype(T, fmt % var)
                 except Exception as e:
